@@ -54,6 +54,12 @@ Theorem C45_whitelist_shape :
   /\ (0 <? N.of_nat (length c45_host_imports)) = true.
 Proof. vm_compute. split; reflexivity. Qed.
 
+(* no whitelisted name is accepted with more than one of the probed signatures (gen_c45 probes every
+   *_FUNCTION_NAME constant with i32^n -> {none,i32,i64}, n <= 10): a host function whose signature
+   check is skipped shows up here *)
+Theorem C45_whitelist_unambiguous : c45_ambiguous_imports = [].
+Proof. reflexivity. Qed.
+
 (* THE PARAMETER LIMIT IS NOT ONE OF THE RULES OF THE STATEMENT (decision recorded here on the
    coordinator's request).  Read literally, the statement lists: no floating point, no start
    function, a single exported memory bounded by the limit, bounded tables, functions, locals and
@@ -118,6 +124,7 @@ Print Assumptions C45_floats_rejected.
 Print Assumptions C45_start_rejected.
 Print Assumptions C45_gas_import_reserved.
 Print Assumptions C45_whitelist_shape.
+Print Assumptions C45_whitelist_unambiguous.
 Print Assumptions C45_params_checked_prefix_partial.
 Print Assumptions C45_param_limit_gap.
 Print Assumptions C45_nonvacuous.
